@@ -1,9 +1,243 @@
-"""Kani back end (filled in below)."""
+"""Kani back end: generate a harness crate from a `.kani` unit template and run each harness.
+
+Template = same directive language as Verus units (`//@fn`, `//@item`, ... pull real code from /repo) plus
+
+    //@backend kani
+    //@harness NAME complete|bounded [timeout=SEC] [thorough=1] [bound=free_text_without_spaces] [expect=fail:<finding>]
+    //@kaniflags -Z function-contracts -Z stubbing ...
+    //@file engine/src/rate_limiter.rs as rate_limiter <<<      byte-identical copy of a real file as module
+    ... text appended to the copy (harness module that needs private items) ...
+    //@ >>>
+    //@dep anyhow = "1"                                        dependency line for the generated Cargo.toml
+
+`complete` harnesses are loop-free over the full input domain (a proof, counted as an obligation);
+`bounded` ones are stand-ins with a stated bound, reported separately and never counted as proved.
+"""
+import json
+import os
+import re
+import shutil
+import subprocess
+import time
+
+import gen
+from verus import Obligation
+
+VERIF = gen.VERIF
+OUT = os.path.join(VERIF, "out")
+
+
+class KaniResult:
+    def __init__(self, unit):
+        self.unit = unit
+        self.obligations = []
+        self.undecided = []
+        self.solver_ms = 0
+        self.wall_s = 0.0
+        self.gen = None
+        self.meta = {}
+        self.cmd = ""
+        self.trusted = []
+        self.canaries = {}
+        self.functions = []
+        self.outfile = None
+        self.verified = 0
+        self.errors = 0
+
+    def failed(self):
+        return [o for o in self.obligations if o.status == "FAILED"]
 
 
 def load_spec(path):
-    raise NotImplementedError
+    serves = []
+    for ln in open(path):
+        if ln.startswith("//@serves"):
+            serves = ln.split()[1:]
+    return {"serves": serves}
+
+
+def parse_harness(line):
+    opts, words = gen.parse_opts(line)
+    return {"name": words[0], "mode": words[1] if len(words) > 1 else "bounded", "timeout": int(opts.get("timeout", "180")),
+            "thorough": opts.get("thorough") == "1", "bound": opts.get("bound", "").replace("_", " "), "expect": opts.get("expect", ""),
+            "covers": int(opts.get("covers", "-1"))}
 
 
 def run_unit(path, tier="quick", overlay=None, tag=""):
-    raise NotImplementedError
+    t0 = time.time()
+    unit = os.path.basename(path).rsplit(".", 1)[0]
+    res = KaniResult(unit)
+    try:
+        g = gen.generate(path, overlay)
+    except gen.GenError as e:
+        res.undecided.append("generation: %s" % e)
+        res.wall_s = time.time() - t0
+        return res
+    except Exception as e:
+        res.undecided.append("generation crashed: %r" % e)
+        res.wall_s = time.time() - t0
+        return res
+    res.gen = g
+    res.meta = g.meta
+    crate = os.path.join(OUT, "kani", unit + (("__" + tag) if tag else ""))
+    src = os.path.join(crate, "src")
+    os.makedirs(src, exist_ok=True)
+    os.makedirs(os.path.join(crate, ".cargo"), exist_ok=True)
+    with open(os.path.join(crate, ".cargo", "config.toml"), "w") as f:
+        f.write("[net]\noffline = true\n")
+    deps = "\n".join(g.meta.get("deps", []))
+    with open(os.path.join(crate, "Cargo.toml"), "w") as f:
+        f.write('[package]\nname = "vxk_%s"\nversion = "0.0.0"\nedition = "2021"\n\n[lib]\npath = "src/lib.rs"\n\n[dependencies]\n%s\n\n'
+                '[lints.rust]\nunexpected_cfgs = { level = "allow" }\n\n[workspace]\n' % (re.sub(r"\W", "_", unit), deps))
+    if deps:
+        try:
+            shutil.copy(os.path.join(gen.REPO, "Cargo.lock"), os.path.join(crate, "Cargo.lock"))
+        except OSError:
+            pass
+    with open(os.path.join(src, "lib.rs"), "w") as f:
+        f.write(g.text)
+    res.outfile = os.path.join(src, "lib.rs")
+    for spec, appended in g.meta.get("files", []):
+        m = re.match(r"(\S+)\s+as\s+(\w+)", spec)
+        if not m:
+            res.undecided.append("bad //@file line: %s" % spec)
+            continue
+        rel, mod = m.group(1), m.group(2)
+        try:
+            text = gen.read_source(rel, overlay)
+        except gen.GenError as e:
+            res.undecided.append(str(e))
+            continue
+        with open(os.path.join(src, mod + ".rs"), "w") as f:
+            f.write(text)
+            if appended:
+                f.write("\n// ---- appended by /verif (harness module; the text above is a byte-identical copy of /repo/%s)\n" % rel)
+                f.write(appended + "\n")
+        import hashlib
+        res.functions.append({"unit": unit, "function": "whole file " + rel, "file": rel, "kind": "file", "sha256_16": hashlib.sha256(text.encode()).hexdigest()[:16],
+                              "clauses": 0, "dropped_by_extraction": []})
+    if res.undecided:
+        res.wall_s = time.time() - t0
+        return res
+    flags = g.meta.get("kaniflags", [])
+    harnesses = [parse_harness(h) for h in g.meta.get("harnesses", [])]
+    env = dict(os.environ)
+    env["CARGO_NET_OFFLINE"] = "true"
+    env["CARGO_TARGET_DIR"] = os.path.join(OUT, "kani-target", unit + (("__" + tag) if tag else ""))
+    import concurrent.futures as cf
+
+    def one(h):
+        if h["thorough"] and tier != "thorough":
+            return h, None, 0.0
+        cmd = ["cargo", "kani"] + flags + ["--harness", h["name"]]
+        t1 = time.time()
+        try:
+            p = subprocess.run(cmd, cwd=crate, env=env, stdout=subprocess.PIPE, stderr=subprocess.STDOUT, timeout=h["timeout"] * (4 if tier == "thorough" else 1))
+            out = p.stdout.decode("utf-8", "replace")
+        except subprocess.TimeoutExpired as e:
+            out = "TIMEOUT\n" + ((e.stdout or b"").decode("utf-8", "replace")[-2000:])
+            subprocess.run(["pkill", "-f", crate], stdout=subprocess.DEVNULL, stderr=subprocess.DEVNULL)
+        return h, out, time.time() - t1
+
+    # first harness alone (it compiles the crate), the rest in parallel
+    outs = []
+    if harnesses:
+        outs.append(one(harnesses[0]))
+        with cf.ThreadPoolExecutor(max_workers=4) as ex:
+            outs += list(ex.map(one, harnesses[1:]))
+    res.cmd = "cargo kani %s --harness <name>  (crate generated from %s)" % (" ".join(flags), os.path.basename(path))
+    for h, out, dt in outs:
+        kind = "kani-complete" if h["mode"] == "complete" else "bounded"
+        o = Obligation("%s/%s" % (unit, h["name"]), h["name"], kind,
+                       "Kani harness %s (%s%s)" % (h["name"], h["mode"], (", bound: " + h["bound"]) if h["bound"] else ""))
+        if out is None:
+            continue
+        res.solver_ms += int(dt * 1000)
+        m_ver = re.search(r"VERIFICATION:- (SUCCESSFUL|FAILED)", out)
+        failed_checks = re.findall(r"Check \d+: (\S+)\n\s+- Status: FAILURE\n\s+- Description: \"([^\"]*)\"(?:\n\s+- Location: (\S+))?", out)
+        n_checks = re.search(r"\*\* (\d+) of (\d+) failed", out)
+        covers = re.search(r"\*\* (\d+) of (\d+) cover properties satisfied", out)
+        unwind_fail = [c for c in failed_checks if "unwind" in c[0] or "unwinding assertion" in c[1]]
+        real_fail = [c for c in failed_checks if c not in unwind_fail]
+        o.detail = ""
+        if out.startswith("TIMEOUT"):
+            o.status = "undecided"
+            res.undecided.append("harness %s timed out after %ds" % (h["name"], h["timeout"]))
+        elif m_ver is None:
+            o.status = "undecided"
+            res.undecided.append("harness %s: no verification result (compile error?): %s" % (h["name"], out[-1500:]))
+        elif m_ver.group(1) == "SUCCESSFUL":
+            if covers and covers.group(1) != covers.group(2):
+                o.status = "undecided"
+                res.undecided.append("harness %s: only %s of %s cover properties satisfied (vacuity guard)" % (h["name"], covers.group(1), covers.group(2)))
+            elif h["covers"] >= 0 and (not covers or int(covers.group(2)) != h["covers"]):
+                o.status = "undecided"
+                res.undecided.append("harness %s: expected %d cover properties, saw %s" % (h["name"], h["covers"], covers.group(2) if covers else "none"))
+            else:
+                o.status = "discharged"
+                o.detail = "checks: %s, covers: %s, %.1fs" % (n_checks.group(2) if n_checks else "?", covers.group(0) if covers else "none", dt)
+        else:
+            if real_fail:
+                o.status = "FAILED"
+                o.detail = "\n".join("%s: %s @ %s" % c for c in real_fail[:10])
+                cex = playback(crate, env, flags, h)
+                if cex:
+                    o.counterexample = cex
+                    o.detail += "\nconcrete values (kani --concrete-playback=print): " + json.dumps(cex)[:1500]
+                only_asserts = all(".assertion." in c[0] for c in real_fail)
+                if only_asserts and cex and cex.get("native_failed") is False:
+                    # CBMC's model of a float intrinsic (sqrt, ...) disagrees with the machine: not a violation
+                    o.status = "undecided"
+                    res.undecided.append("harness %s: Kani counterexample does not reproduce natively on the real text (over-approximated intrinsic?): %s"
+                                         % (h["name"], json.dumps(cex["values"])[:300]))
+            elif unwind_fail:
+                o.status = "undecided"
+                res.undecided.append("harness %s: unwinding assertion failed (bound too small)" % h["name"])
+            else:
+                # failed cover only or unsupported construct
+                o.status = "undecided"
+                res.undecided.append("harness %s: FAILED without a failing check: %s" % (h["name"], out[-800:]))
+        res.obligations.append(o)
+    res.trusted = ["kani: CBMC bit-precise semantics of the compiled MIR; stubs named in the harness file (#[kani::stub])"]
+    for ex in g.extracted:
+        if ex.kind in ("fn", "region", "expr"):
+            pass
+    res.wall_s = time.time() - t0
+    res.verified = sum(1 for o in res.obligations if o.status == "discharged")
+    res.errors = len(res.failed())
+    return res
+
+
+def playback(crate, env, flags, h):
+    """re-run a failed harness with concrete playback; insert the generated unit tests into the crate and execute them
+    natively (`cargo kani playback`) against the same extracted real text.  Returns the values and whether the native
+    run fails too."""
+    cmd = ["cargo", "kani"] + flags + ["-Z", "concrete-playback", "--concrete-playback=print", "--harness", h["name"]]
+    try:
+        p = subprocess.run(cmd, cwd=crate, env=env, stdout=subprocess.PIPE, stderr=subprocess.STDOUT, timeout=h["timeout"] * 2)
+    except subprocess.TimeoutExpired:
+        return None
+    out = p.stdout.decode("utf-8", "replace")
+    tests = re.findall(r"```\n(.*?)```", out, re.S)
+    if not tests:
+        return None
+    body = tests[0]
+    vecs = re.findall(r"//\s*(.*?)\n\s*vec!\[([^\]]*)\]", body)
+    cex = {"harness": h["name"], "values": [{"value": v.strip(), "bytes": b.strip()} for v, b in vecs], "playback_test": body[:3000],
+           "replayed_natively": None}
+    try:
+        subprocess.run(["cargo", "kani"] + flags + ["-Z", "concrete-playback", "--concrete-playback=inplace", "--harness", h["name"]],
+                       cwd=crate, env=env, stdout=subprocess.PIPE, stderr=subprocess.STDOUT, timeout=h["timeout"] * 2)
+        p2 = subprocess.run(["cargo", "kani", "playback", "-Z", "concrete-playback"] + [f for f in flags if f not in ("-Z", "concrete-playback")] +
+                            ["--", "kani_concrete_playback_" + h["name"]],
+                            cwd=crate, env=env, stdout=subprocess.PIPE, stderr=subprocess.STDOUT, timeout=600)
+        o2 = p2.stdout.decode("utf-8", "replace")
+        m = re.search(r"test result: (\w+)\. (\d+) passed; (\d+) failed", o2)
+        if m:
+            cex["replayed_natively"] = "native run of the playback tests against the extracted real text: %s passed, %s failed" % (m.group(2), m.group(3))
+            cex["native_failed"] = int(m.group(3)) > 0
+        else:
+            cex["replayed_natively"] = "playback run gave no test result: " + o2[-400:]
+    except subprocess.TimeoutExpired:
+        cex["replayed_natively"] = "playback timed out"
+    return cex
